@@ -416,7 +416,8 @@ def c15():
 def trace_shapes(maxlen):
     out = []
     for n in range(1, maxlen + 1):
-        for seq in itertools.product((1, 3, 4, 5, 6, 7), repeat=n):
+        for seq in itertools.product((1, 3, 4, 5, 6, 7, 8), repeat=n):
+            if 8 in seq and n > 2 and maxlen <= 3 and seq.count(8) > 1: continue
             d = 0; ok = True; calls = 0
             for o in seq:
                 if o == 1:
